@@ -5,7 +5,7 @@ from numbers_parser.generated import TSTArchives_pb2 as TSTArchives
 from numbers_parser.model import DataLists, _NumbersModel, get_storage_buffers_for_row
 from numbers_parser.numbers_cache import Cacheable
 
-from pysym.api import BoolDom, BVDom, Cases, Harness, IntDom, assume, concretize, cover
+from pysym.api import BoolDom, BVDom, Cases, Harness, IntDom, StrDom, assume, concretize, cover
 
 
 class Rec:
@@ -66,6 +66,30 @@ def h06a_rekey(k0, k1, k2):
     assert len(model.objects[8].entries) == 3
 
 
+def h06a_two_saves(v0, v1, v2, new_first):
+    """saving twice from the same open document: each save empties the string list and re-keys it; after the second save
+    every text value still has a key of its own whose entry in the stored list carries exactly that value"""
+    entries = [Rec(key=5, string="old", refcount=1)]
+    model = StubModelDL(entries)
+
+    def save(vals):
+        model.init_table_strings(7)
+        return [model.table_string_key(7, v) for v in vals]
+
+    first = [v0, v1]
+    save(first)
+    second = [v2, v0, v1] if new_first else [v0, v1, v2]
+    keys = save(second)
+    stored = model.objects[8].entries
+    for v, k in zip(second, keys):
+        hits = [e for e in stored if e.key == k]
+        assert len(hits) == 1                       # the key exists exactly once in the saved list
+        assert hits[0].string == v                  # and carries this cell's text
+    for i in range(3):
+        for j in range(i):
+            assert (keys[i] == keys[j]) == (second[i] == second[j])
+
+
 def _list_entry(eng, **kw):
     return Rec(**kw)
 
@@ -116,12 +140,13 @@ class StubModelRows(Cacheable):
         self.objects = objects
 
 
-def h06c_rows(has0, has1, has2, has3, hdr0, hdr1, hdr2, hdr3, split, wide, tile_flag):
+def h06c_rows(has0, has1, has2, has3, hdr0, hdr1, hdr2, hdr3, zr0, zr1, zr2, zr3, split, wide, tile_flag):
     """every stored row is reported at the index its own record declares, whether or not empty rows have header records,
     however the rows are spread over tiles, and whichever offset encoding each row record declares"""
     R = 4
     has = [has0, has1, has2, has3]
     hdr = [hdr0, hdr1, hdr2, hdr3]
+    zero_rec = [zr0, zr1, zr2, zr3]           # an empty row may also have an explicit row record holding no cells
     tile_size = 2 if split else 256
     tiles = {}
     headers = []
@@ -129,11 +154,16 @@ def h06c_rows(has0, has1, has2, has3, hdr0, hdr1, hdr2, hdr3, split, wide, tile_
         if has[r]:
             blob = bytes([48 + r]) * 12 + bytes([97 + r]) * 8
             offs = pack("<2h", 0, 3) if wide else pack("<2h", 0, 12)
-            ri = Rec(tile_row_index=r % tile_size, cell_storage_buffer=blob, cell_offsets=offs, has_wide_offsets=wide)
+            ri = Rec(tile_row_index=r % tile_size, cell_storage_buffer=blob, cell_offsets=offs, has_wide_offsets=wide, cell_count=2)
             tiles.setdefault(r // tile_size, []).append(ri)
             headers.append(Rec(index=r, numberOfCells=2))
-        elif hdr[r]:
-            headers.append(Rec(index=r, numberOfCells=0))       # explicit header record for an empty row
+        else:
+            if zero_rec[r]:
+                ri = Rec(tile_row_index=r % tile_size, cell_storage_buffer=b"", cell_offsets=pack("<2h", -1, -1),
+                         has_wide_offsets=wide, cell_count=0)
+                tiles.setdefault(r // tile_size, []).append(ri)
+            if hdr[r]:
+                headers.append(Rec(index=r, numberOfCells=0))       # explicit header record for an empty row
     objects = {7: None, 30: Rec(headers=headers)}
     tile_refs = []
     for tid in sorted(tiles):
@@ -165,13 +195,18 @@ HARNESSES = [
     Harness("H06a-rekey", h06a_rekey, dict(k0=IntDom(), k1=IntDom(), k2=IntDom()),
             bounds="3 stale entries with symbolic keys, then init + 4 lookups (one repeated value)",
             models={TSTArchives.TableDataList.ListEntry: _list_entry}),
+    Harness("H06a-two-saves", h06a_two_saves,
+            dict(v0=StrDom(1, [(97, 99)]), v1=StrDom(1, [(97, 99)]), v2=StrDom(1, [(97, 99)]), new_first=BoolDom()),
+            bounds="two consecutive saves of one open document; three one-character text values a..c (every equality pattern), the value "
+                   "added between the saves encoded first or last",
+            models={TSTArchives.TableDataList.ListEntry: _list_entry}),
     Harness("H06b", h06b_offsets,
             dict(p0=BoolDom(), p1=BoolDom(), p2=BoolDom(), p3=BoolDom(), l0=IntDom(1, 3), l1=IntDom(1, 3), l2=IntDom(1, 3), l3=IntDom(1, 3)),
             bounds="4 columns, any subset present, record lengths 4/8/12 bytes", stubs=["array('h') model: 16-bit signed little-endian split"]),
     Harness("H06c", h06c_rows,
             dict(has0=BoolDom(), has1=BoolDom(), has2=BoolDom(), has3=BoolDom(), hdr0=BoolDom(), hdr1=BoolDom(), hdr2=BoolDom(),
-                 hdr3=BoolDom(), split=BoolDom(), wide=BoolDom(), tile_flag=BoolDom()),
-            bounds="4 rows x 2 stored cells, any subset stored, header records for any subset of the empty rows, one tile or tiles of 2 rows, narrow or wide offsets per row record, tile-level wide hint set or not",
+                 hdr3=BoolDom(), zr0=BoolDom(), zr1=BoolDom(), zr2=BoolDom(), zr3=BoolDom(), split=BoolDom(), wide=BoolDom(), tile_flag=BoolDom()),
+            bounds="4 rows x 2 stored cells, any subset stored, header records and / or explicit zero-cell row records for any subset of the empty rows, one tile or tiles of 2 rows, narrow or wide offsets per row record, tile-level wide hint set or not",
             stubs=["object store = dict of attribute bags"]),
 ]
 PROPERTY = "C06"
